@@ -191,6 +191,60 @@ func concCase(seed uint64, idx int, flush bool) *CaseSpec {
 				h.sess[c].take()
 			}
 		}
+		// a slow Get reader while the primary deletes what is being streamed: the Get must return
+		// one state of the table (it holds the instance lock, so the deletes wait for it)
+		{
+			idB := &spb.Uint128{High: base, Low: 2}
+			mkNH := func(opid, idx uint64, ty spb.AFTOperation_Operation) *spb.AFTOperation {
+				return &spb.AFTOperation{Id: opid, NetworkInstance: "VRF1", Op: ty, ElectionId: idB,
+					Entry: &spb.AFTOperation_NextHop{NextHop: &aftpb.Afts_NextHopKey{Index: idx, NextHop: &aftpb.Afts_NextHop{IpAddress: sv("10.9.0.1")}}}}
+			}
+			const nNH = 30
+			adds, dels := []*spb.AFTOperation{}, []*spb.AFTOperation{}
+			for i := uint64(0); i < nNH; i++ {
+				adds = append(adds, mkNH(3000000+i, 1000+i, spb.AFTOperation_ADD))
+				dels = append(dels, mkNH(3100000+i, 1000+i, spb.AFTOperation_DELETE))
+			}
+			o := h.Send(2, &spb.ModifyRequest{Operation: adds})
+			if o.Hang || o.Ended {
+				t.Add("conc.result 0 %s %s", S("slow-reader phase: the entries could not be programmed"), B(flush))
+				t.Add("end")
+				return t, nil
+			}
+			stalled, resume := h.GetPaused(&spb.GetRequest{NetworkInstance: &spb.GetRequest_Name{Name: "VRF1"}, Aft: spb.AFTType_NEXTHOP}, 1)
+			delDone := make(chan MsgOutcome, 1)
+			go func() { delDone <- h.Send(2, &spb.ModifyRequest{Operation: dels}) }()
+			if stalled {
+				time.Sleep(20 * time.Millisecond)
+			}
+			resps, gerr, ghang := resume()
+			od := <-delDone
+			got := 0
+			for _, rsp := range resps {
+				for _, e := range rsp.GetEntry() {
+					if nh := e.GetNextHop(); nh != nil && nh.GetIndex() >= 1000 {
+						got++
+					}
+				}
+			}
+			switch {
+			case ghang || od.Hang:
+				t.Add("conc.result 0 %s %s", S("slow-reader phase: a Get or the deletes overlapping it were not answered (hang)"), B(flush))
+				t.Add("end")
+				return t, nil
+			case gerr != nil || od.Ended:
+				t.Add("conc.result 0 %s %s", S(fmt.Sprintf("slow-reader phase: unexpected error (%v / %v)", gerr, od.Err)), B(flush))
+				t.Add("end")
+				return t, nil
+			case stalled && got != nNH && got != 0:
+				t.Add("conc.result 0 %s %s", S(fmt.Sprintf("slow-reader phase: a Get that overlapped the deletion of %d next-hops returned %d of them: not a state the table ever had", nNH, got)), B(flush))
+				t.Add("end")
+				return t, nil
+			}
+			for c := 1; c <= n; c++ {
+				h.sess[c].take()
+			}
+		}
 		// each session announces `rounds` strictly increasing ids of its own; all distinct
 		type ann struct {
 			c  int
@@ -299,6 +353,44 @@ func concCase(seed uint64, idx int, flush bool) *CaseSpec {
 				}
 			}()
 		}
+		// new sessions keep connecting, negotiating and leaving while the others announce and modify
+		aux.Add(1)
+		go func() {
+			defer aux.Done()
+			for {
+				select {
+				case <-stop:
+					return
+				default:
+				}
+				f, err := h.ConnectDetached()
+				if err != nil {
+					mu.Lock()
+					problems = append(problems, "a new session could not connect: "+err.Error())
+					mu.Unlock()
+					return
+				}
+				o := h.SendOn(f, &spb.ModifyRequest{Params: &spb.SessionParameters{Redundancy: spb.SessionParameters_SINGLE_PRIMARY, Persistence: spb.SessionParameters_PRESERVE}})
+				if o.Hang {
+					mu.Lock()
+					problems = append(problems, "deadlock: a new session's parameters were not answered while other sessions were announcing")
+					mu.Unlock()
+					return
+				}
+				if !o.Ended {
+					close(f.in)
+					select {
+					case <-f.done:
+					case <-time.After(stepTimeout):
+						mu.Lock()
+						problems = append(problems, "deadlock: a session could not leave")
+						mu.Unlock()
+						return
+					}
+				}
+				time.Sleep(20 * time.Microsecond)
+			}
+		}()
 		if flush {
 			aux.Add(1)
 			go func() {
